@@ -123,7 +123,12 @@ func (l *levelDownCache) Destroy(directory string, dbAddress address.Address) er
 	defer l.muCaches.Unlock()
 
 	if wc, ok := l.caches[keyPath]; ok {
-		wc.Close()
+		// close it here: wc.Close() would take muCaches, which is already held
+		if !wc.closed {
+			wc.closed = true
+			_ = wc.wrappedCache.Close()
+		}
+		delete(l.caches, keyPath)
 	}
 
 	if directory != InMemoryDirectory {
